@@ -120,10 +120,10 @@ def rules(ctx: Ctx) -> None:
             if "STMT_TYPES" in k:
                 vv = prog.try_fold(v, c.mod, None, c)
                 keyed |= {x for x in (vv or []) if isinstance(x, str)}
-    ctx.floor("segment type names the extraction code keys on", len(keyed), 60)
+    ctx.floor("segment type names the extraction code keys on", len(keyed), 50)
     ga = grammar("ansi")
     dialects = installed_dialects()
-    ctx.floor("installed sqlfluff dialects", len(dialects), 20)
+    ctx.floor("installed sqlfluff dialects", len(dialects), 16)
     n_pairs = 0
     for cname, t in sorted(ga.class_type.items()):
         if t not in keyed:
